@@ -93,6 +93,7 @@ def selftest(pid, repo, rep, seed):
     rel = lambda d: os.path.relpath(d, HERE)  # noqa: E731
     rep.selftest = {
         "breaking_variants": len(breaking), "breaking_detected": len(fired), "breaking_missed": [rel(d) for d in missed],
+        "breaking_other_outcome": [{"diff": rel(d), "outcome": res[d][0], "messages": res[d][1][:2]} for d in breaking if res[d][0] not in ("violation", "silent", "inapplicable")],
         "preserving_variants": len(preserving), "preserving_silent": len(quiet), "preserving_alarmed": [{"diff": rel(d), "messages": res[d][1][:3]} for d in loud],
         "inapplicable_on_this_tree": [rel(d) for d in skipped],
         "samples": [{"variant": rel(d), "outcome": res[d][0], "first_message": (res[d][1] or [""])[0]} for d in (breaking + preserving[:4])],
